@@ -84,6 +84,9 @@ MExactlySeats == Started => ExactlySeats
 (* known finding KF-C01-overelect is a *design* fact: with the Hare quota, or with SequentialRCV's full-weight *)
 (* transfer, more candidates can stand at/above the threshold than seats remain.                               *)
 MNoOverElectionDroop == (Started /\ DPCApplies) => NeverOverElected
+MProbSum == Started => ProbSum
+MRandomOnlyWithTiebreak == [][(Started /\ status = "running" /\ plabel' # R(1) /\ ~RandomByRequest /\ Len(rounds') > Len(rounds))
+                               => rounds'[Len(rounds')].tiebreaks # {}]_mvars
 MProgress == [][status = "running" /\ status' = "running" => Variant' < Variant]_mvars
 MMonotone == [][Started => ElectedSoFar \subseteq ElectedSoFar' /\ EliminatedSoFar \subseteq EliminatedSoFar']_mvars
 MThresholdFixed == [][Started /\ stage = "main" /\ stage' = "main" => thr' = thr]_mvars
